@@ -253,7 +253,7 @@ def run_falsifier(harness, seed, n):
 
 def run_c09(ck):
     thorough = ck.tier == "thorough"
-    n_h, n_r, n_f = (40000, 1320, 120000) if thorough else (1760, 77, 6000)
+    n_h, n_r, n_f = (40000, 1320, 60000) if thorough else (1760, 77, 6000)
     shard = 440
     ck.trusted = [
         "Coq 8.16.1 kernel incl. its bytecode VM (vm_compute); no axioms (Print Assumptions: closed under the global context)",
